@@ -114,6 +114,10 @@ func libProg(c *Ctx, dir string) (*core.Module, *ir.Program, *ir.Normalizer) {
 }
 
 func checkTermSpecs(c *Ctx, rule, dir string, specs []termSpec) {
+	checkTermSpecsOpt(c, rule, dir, specs, true)
+}
+
+func checkTermSpecsOpt(c *Ctx, rule, dir string, specs []termSpec, noteExtras bool) {
 	r := c.R
 	m, prog, n := libProg(c, dir)
 	if m == nil {
@@ -147,7 +151,7 @@ func checkTermSpecs(c *Ctx, rule, dir string, specs []termSpec) {
 		}
 	}
 	sort.Strings(extra)
-	if len(extra) > 0 {
+	if len(extra) > 0 && noteExtras {
 		r.Note("%s: exported functions without a specification term (not decided): %s", dir, strings.Join(extra, ", "))
 	}
 }
@@ -190,7 +194,9 @@ var verbClass = map[string]map[string]bool{
 }
 
 // checkToS: C14.d.
-func checkToS(c *Ctx) {
+func checkToS(c *Ctx) { checkToSRule(c, "C14.d") }
+
+func checkToSRule(c *Ctx, ruleID string) {
 	r := c.R
 	m, prog, n := libProg(c, "pkg/frt")
 	if m == nil {
@@ -198,7 +204,7 @@ func checkToS(c *Ctx) {
 	}
 	fn, ok := prog.ByName["toS"]
 	if !ok {
-		r.Undecided("C14.d", "pkg/frt.toS", "definition", "pkg/frt", "anchor function toS not found")
+		r.Undecided(ruleID, "pkg/frt.toS", "definition", "pkg/frt", "anchor function toS not found")
 		return
 	}
 	pos := c.Pos(m.Fset, fn.Decl.Pos())
@@ -213,19 +219,19 @@ func checkToS(c *Ctx) {
 		}
 	}
 	if len(kindName) < 20 {
-		r.Undecided("C14.d", "pkg/frt.toS", "reflect-kinds", pos, "cannot resolve the reflect.Kind constants")
+		r.Undecided(ruleID, "pkg/frt.toS", "reflect-kinds", pos, "cannot resolve the reflect.Kind constants")
 		return
 	}
 	_ = n
 	nf := ir.NewNormalizer().Func(fn) // plain value semantics: rval is a value, inline it
 	sm, ok := nf.(*ir.StrMatch)
 	if !ok {
-		r.Undecided("C14.d", "pkg/frt.toS", "shape", pos, "toS is not a single switch over the value's kind: "+ir.String(m.Main().PkgPath, nf))
+		r.Undecided(ruleID, "pkg/frt.toS", "shape", pos, "toS is not a single switch over the value's kind: "+ir.String(m.Main().PkgPath, nf))
 		return
 	}
 	scr := ir.String("", sm.Scrut)
 	const wantScr = "reflect.(Value).Kind(reflect.ValueOf(p0))"
-	r.Check(scr == wantScr, "C14.d", "pkg/frt.toS", "scrutinee", pos, "switch is over reflect.ValueOf(arg).Kind()", "switch scrutinee is "+scr+", expected "+wantScr)
+	r.Check(scr == wantScr, ruleID, "pkg/frt.toS", "scrutinee", pos, "switch is over reflect.ValueOf(arg).Kind()", "switch scrutinee is "+scr+", expected "+wantScr)
 	const recv = "reflect.ValueOf(p0)"
 	checkBody := func(label string, kinds []string, body ir.Term) {
 		// accessors used
@@ -252,7 +258,7 @@ func checkToS(c *Ctx) {
 					good = false
 					bad = []string{"(any kind)"}
 				}
-				r.Check(good, "C14.d", "pkg/frt.toS", "case "+label+" "+key, pos,
+				r.Check(good, ruleID, "pkg/frt.toS", "case "+label+" "+key, pos,
 					key+" is valid for every kind of its clause ["+strings.Join(kinds, ",")+"]",
 					key+" panics (or yields a placeholder) for kind(s) "+strings.Join(bad, ",")+" listed in the same case clause")
 			}
@@ -268,7 +274,7 @@ func checkToS(c *Ctx) {
 					if label == "default" {
 						okv = verb == "%v" && len(app.Args) == 2 && ir.String("", app.Args[1]) == "p0"
 					}
-					r.Check(okv, "C14.d", "pkg/frt.toS", "case "+label+" verb", pos,
+					r.Check(okv, ruleID, "pkg/frt.toS", "case "+label+" verb", pos,
 						"format "+strconv.Quote(verb)+" suits the clause", "format "+strconv.Quote(verb)+" does not suit kinds ["+strings.Join(kinds, ",")+"]")
 				}
 			}
@@ -293,7 +299,7 @@ func checkToS(c *Ctx) {
 	if sm.Default != nil {
 		checkBody("default", nil, sm.Default.Ret)
 	} else {
-		r.Bad("C14.d", "pkg/frt.toS", "default", pos, "no default clause: other values are not formatted")
+		r.Bad(ruleID, "pkg/frt.toS", "default", pos, "no default clause: other values are not formatted")
 	}
 	// integers of every kind must be formatted in decimal: every int/uint kind is covered by a clause
 	var missing []string
@@ -303,6 +309,6 @@ func checkToS(c *Ctx) {
 		}
 	}
 	sort.Strings(missing)
-	r.Check(len(missing) == 0, "C14.d", "pkg/frt.toS", "integer-kinds", pos, "every signed and unsigned integer kind has a clause",
+	r.Check(len(missing) == 0, ruleID, "pkg/frt.toS", "integer-kinds", pos, "every signed and unsigned integer kind has a clause",
 		"integer kinds without a clause (would be formatted by %v of the default, which is fine for values but not the documented decimal path): "+strings.Join(missing, ","))
 }
